@@ -149,6 +149,21 @@ theorem unwrap_total (tp : AObj) : ∃ r, unwrapTypeAlias tp = some (some r) := 
       exact ⟨.inst v as, by simp [unwrapTypeAlias, pvOrigin, pvValue, pvArgs, AObj.getOrigin, AObj.getArgs, ho]⟩
 
 open Gen in
+/-- what the hook then tests (`typing.get_origin(source_type) is np.ndarray`): a subscripted alias whose value is a subscripted array type
+    (`npt.NDArray[np.float32]`, value `np.ndarray[shape, np.dtype[T]]`) is seen with the origin of that value — it is cross-checked as the
+    array type it stands for -/
+theorem unwrapped_alias_has_origin_of_value (n : Nat) (o : AObj) (vargs args : List AObj) :
+    (unwrapTypeAlias (.sub (.alias n (.sub o vargs)) args)).map (fun r => r.bind AObj.getOrigin) = some (some o) := rfl
+open Gen in
+/-- … and is handed the arguments written by the user, from which `_resolve_numpy_dtype` reads the declared scalar types -/
+theorem unwrapped_alias_has_written_args (n : Nat) (v : AObj) (args : List AObj) :
+    (unwrapTypeAlias (.sub (.alias n v) args)).map (fun r => pvArgs r) = some args := rfl
+open Gen in
+/-- a bare alias of a bare class (`type Arr = np.ndarray`) has no origin afterwards: like `np.ndarray` itself it declares nothing to cross-check -/
+theorem unwrapped_bare_alias_of_class (n c : Nat) :
+    (unwrapTypeAlias (.alias n (.cls c))).map (fun r => r.bind AObj.getOrigin) = some none := rfl
+
+open Gen in
 /-- one level only: an alias of an alias is resolved to the inner alias (documented behaviour of the source, not a claim of the properties) -/
 example : unwrapTypeAlias (.alias 0 (.alias 1 (.cls 2))) = some (some (.alias 1 (.cls 2))) := rfl
 open Gen in
